@@ -55,6 +55,12 @@ EXPECT = [
      "f3 := {|p, q| [p, q, \\_]}\nf3(10, *[20], **a, **b).p\n[a, b].p\nshow(**b, **a).p\n[a, b].p\n",
      '[1, 2, 3, {"x": 1, "y": 2, "z": 3}]\n[{"x": 1}, {"y": 2}, {"z": 3}]\n[1, 0, 0, {"x": 1}]\n[10, 20, {"x": 1, "y": 2}]\n[{"x": 1}, {"y": 2}]\n'
      '[1, 2, 0, {"x": 1, "y": 2}]\n[{"x": 1}, {"y": 2}]\n'),
+    ("explicit_nil_keyword_is_nil", "greet := {|n, to: \"P\"| [n, to, \\_]}\ngreet('T, to: nil).p\nx := nil\ngreet('T, to: x).p\ngreet('T, **{to: nil}).p\n",
+     '["T", nil, {"to": nil}]\n["T", nil, {"to": nil}]\n["T", nil, {"to": nil}]\n'),
+    ("parameterless_function_has_its_own_frame_per_call",
+     "fib := {1 if \\1 < 2 else fib(\\1 - 1) + fib(\\1 - 2)}\nfib(10).p\nmk := {v := \\1; {|| v}}\na := mk(\"first\")\nb := mk(\"second\")\n[a(), b()].p\n"
+     "g := {[\\1, \\2]}\ng(1, \"y\").p\n1.try.{|_| g(1)}.A.p\n",
+     '89\n["first", "second"]\n[1, "y"]\n[nil, [NameErr: name `\\2` is not defined]]\n'),
     ("kept_scope_two_levels_sees_reassignment",
      "rate := 10\nmk := {|| {|| {|x| x * rate}}}\nf := mk()()\na := f(2)\nrate := 25\nb := f(2)\n[a, b].p\n", "[20, 50]\n"),
     ("kept_scope_in_method", "Shop := {new: m{|pct| .bear({pct: pct})}, tax: m{|x| g := {|| {|| x * .pct}}; g()()}}\ns := Shop.new(10)\n[s.tax(2), s.tax(3)].p\n", "[20, 30]\n"),
